@@ -155,6 +155,28 @@ def tour_same_literal_twice():
     return t
 
 
+def tour_folded_literals():
+    """literals folded from constants declared on other lines: the folded literal is created where the fold is written"""
+    t = Tour("folded-literals")
+    t.L("from nada_dsl import *")
+    t.L("")
+    t.L("SCALE = Integer(1000)")
+    t.L("STEP = UnsignedInteger(4)")
+    t.L("")
+    t.L("def nada_main():")
+    t.L("    p = Party(name='P0')", party="P0")
+    t.L("    a = SecretInteger(Input(name='a', party=p))", input="a")
+    t.L("    u = SecretUnsignedInteger(Input(name='u', party=p))", input="u")
+    t.L("    k = SCALE + Integer(24)", literal="1024")
+    t.L("    x = a * k", op="Multiplication")
+    t.L("    j = SCALE * Integer(2) - Integer(1)", literal="1999")
+    t.L("    y = x + j", op="Addition")
+    t.L("    w = STEP << UnsignedInteger(1)", literal="8")
+    t.L("    v = u - w", op="Subtraction")
+    t.L("    return [Output(y, 'o', p), Output(v, 'q', p)]", output=("o", "q"))
+    return t
+
+
 # a program whose operations are created in two helper files that share their base name (two packages)
 PK_MAIN = ("from nada_dsl import *\nfrom pkga import add_a\nfrom pkgb import mul_b\n\n\ndef nada_main():\n    p = Party(name='P0')\n"
            "    a = SecretInteger(Input(name='a', party=p))\n    b = SecretInteger(Input(name='b', party=p))\n"
@@ -200,4 +222,5 @@ def all_cases():
          "\n".join((l + ("   " if k % 2 else " \t")) if l.strip() else l for k, l in enumerate(m.text().split("\n"))), m),
         ("same-literal-twice", "progs", "lit2.py", tour_same_literal_twice().text(), tour_same_literal_twice()),
         ("two-helper-files-one-base-name", "progs3", "c19_pk_main.py", PK_MAIN, tour_pk()),
+        ("folded-literals", "progs", "folded.py", tour_folded_literals().text(), tour_folded_literals()),
     ]
